@@ -137,7 +137,30 @@ func (e *Evidence) write(path string, exit int) {
 		"notes":                      e.Notes,
 		"known_findings_encountered": e.Known,
 		"exhaustive":                 false,
+		"bounds":                     e.Bounds,
 	}
+	// assumptions: everything the verdict rests on besides the code under test
+	as := []string{"trusted: the gosx SSA interpreter, term simplifier and SMT encoding (validated by mutants and concrete replay), z3 4.8.12"}
+	as = append(as, e.Assumptions...)
+	var rk []string
+	for k := range e.Redirects {
+		rk = append(rk, k)
+	}
+	sort.Strings(rk)
+	for _, k := range rk {
+		as = append(as, "replaced by a harness model or stub (its real body is not part of the claim): "+k)
+	}
+	var ik []string
+	for k := range e.Intrinsics {
+		if strings.HasPrefix(k, "noop:") {
+			ik = append(ik, k)
+		}
+	}
+	sort.Strings(ik)
+	for _, k := range ik {
+		as = append(as, "dropped (returns zero values): "+strings.TrimPrefix(k, "noop:"))
+	}
+	e.Assumptions = as
 	doc := map[string]any{
 		"property_id": e.ID, "tier": e.Tier, "seed": e.Seed, "level": "other",
 		"coverage": cov, "assumptions": e.Assumptions, "wall_s": round3(e.Wall), "violations": e.Violations,
